@@ -332,7 +332,9 @@ pub fn dispatch(kind: &str, a: &[&str]) -> Option<String> {
         ("bl.mrops", [h, cap, sch, ops]) => rdr_ops(mk_reader(&unhex(h), cap.parse().ok()?, sch), ops)?,
         ("bl.mlops", [h, ops]) => lex_ops(&unhex(h), ops)?,
         // <<< a_c08
-        _ => return None,
+        // >>> s_c08 (wave 6)
+        _ => return dispatch_sizes(kind, a),
+        // <<< s_c08
     };
     Some(r)
 }
@@ -470,3 +472,127 @@ fn write_limited(ts: &str, lim: usize) -> Option<String> {
     Some(format!("{}:{}:{}", if failed { "ERR" } else { "OK" }, n_ok, hex(&store[..lim - left])))
 }
 // <<< a_c08
+
+// >>> s_c08 (wave 6): size ladders -- Token::write into sinks that take short writes, a buffer recycled many times
+/// A sink that accepts at most `sizes[i % len]` bytes on its i-th call.  `vectored` = it also implements
+/// write_vectored itself (taking bytes across the slices, up to the same limit); otherwise the default
+/// write_vectored of std (first non-empty slice through `write`) applies.
+struct ChunkSink {
+    out: Vec<u8>,
+    sizes: Vec<usize>,
+    idx: usize,
+    vectored: bool,
+}
+
+impl ChunkSink {
+    fn quota(&mut self) -> usize {
+        let k = self.sizes[self.idx % self.sizes.len()].max(1);
+        self.idx += 1;
+        k
+    }
+}
+
+impl std::io::Write for ChunkSink {
+    fn write(&mut self, buf: &[u8]) -> std::io::Result<usize> {
+        let n = buf.len().min(self.quota());
+        self.out.extend_from_slice(&buf[..n]);
+        Ok(n)
+    }
+
+    fn write_vectored(&mut self, bufs: &[std::io::IoSlice<'_>]) -> std::io::Result<usize> {
+        if !self.vectored {
+            let first = bufs.iter().find(|b| !b.is_empty()).map_or(&[][..], |b| &**b);
+            return self.write(first);
+        }
+        let mut left = self.quota();
+        let mut n = 0;
+        for b in bufs {
+            let k = b.len().min(left);
+            self.out.extend_from_slice(&b[..k]);
+            left -= k;
+            n += k;
+            if left == 0 {
+                break;
+            }
+        }
+        Ok(n)
+    }
+
+    fn flush(&mut self) -> std::io::Result<()> {
+        Ok(())
+    }
+}
+
+fn write_chunked(ts: &str, sizes: &str, vectored: bool) -> Option<String> {
+    let sizes: Vec<usize> = sizes.split(',').map(|x| x.parse::<usize>().ok()).collect::<Option<Vec<_>>>()?;
+    if sizes.is_empty() {
+        return None;
+    }
+    let mut w = ChunkSink {
+        out: Vec::new(),
+        sizes,
+        idx: 0,
+        vectored,
+    };
+    let mut n_ok = 0usize;
+    if ts != "-" {
+        for s in ts.split(' ') {
+            let r = match parse_tok(s)? {
+                OTok::Plain(t) => t.write(&mut w),
+                OTok::Q(b) => Token::Quoted(Scalar::new(&b)).write(&mut w),
+                OTok::U(b) => Token::Unquoted(Scalar::new(&b)).write(&mut w),
+            };
+            if r.is_err() {
+                return Some(format!("ERR:{}:{}", n_ok, hex(&w.out)));
+            }
+            n_ok += 1;
+        }
+    }
+    Some(hex(&w.out))
+}
+
+/// one buffer handed from reader to reader `rounds` times through into_parts (every reader runs over the same data with
+/// the same schedule): the run of the first reader, how many of the later runs were identical, the final buffer length
+fn reuse_buffer(data: &[u8], cap: usize, sched: &str, rounds: usize) -> String {
+    let mut buf = vec![0xA5u8; cap].into_boxed_slice();
+    let mut first: Option<String> = None;
+    let mut same = 0usize;
+    for _ in 0..rounds {
+        let rd = SchedReader {
+            data: data.to_vec(),
+            pos: 0,
+            sched: parse_sched(sched),
+            idx: 0,
+        };
+        let mut tr = TokenReader::builder().buffer(buf).build(rd);
+        let mut toks = Vec::new();
+        let end = loop {
+            match tr.next() {
+                Ok(Some(t)) => toks.push(show_tok(&t)),
+                Ok(None) => break "END".to_string(),
+                Err(e) => break reader_err(&e),
+            }
+        };
+        let run = show_run(&toks, end, tr.position());
+        buf = tr.into_parts().0;
+        match &first {
+            None => first = Some(run),
+            Some(f) => {
+                if *f == run {
+                    same += 1
+                }
+            }
+        }
+    }
+    format!("{} same={}/{} buf={}", first.unwrap_or_else(|| "-".into()), same, rounds.saturating_sub(1), buf.len())
+}
+
+pub fn dispatch_sizes(kind: &str, a: &[&str]) -> Option<String> {
+    let r = match (kind, a) {
+        ("bl.writechunk", [ts, sizes, vec]) => write_chunked(ts, sizes, *vec == "1")?,
+        ("bl.reuse", [h, cap, sch, rounds]) => reuse_buffer(&unhex(h), cap.parse().ok()?, sch, rounds.parse().ok()?),
+        _ => return None,
+    };
+    Some(r)
+}
+// <<< s_c08
